@@ -111,6 +111,10 @@ class Wrench(Screw):
         """Inherited from Super."""
         return self._wrenchConverter(super().__sub__(other_object))
 
+    def __rsub__(self, other_object):
+        """Inherited from Super."""
+        return self._wrenchConverter(super().__rsub__(other_object))
+
     def __mul__(self, other_object):
         """Inherited from Super."""
         return self._wrenchConverter(super().__mul__(other_object))
